@@ -300,7 +300,7 @@ _encoder("PoissonIntervalEncoder", ES, "poisson_interval", "poisson_interval_onl
 
 MUTANTS = [
     dict(file=EN, func="poisson_interval_online", old="            spikes = torch.logical_and(intervals < 1, mask)", new="            spikes = intervals < 1", contracts=["poisson_interval_online[steps<=3]"], name="seed C19b: online Poisson-interval encoder fires at zero intensity"),
-    dict(file=EN, func="homogeneous_poisson_exp_interval_online", old="                * inputs[spikes]\n                + refrac\n            )\n            yield spikes", new="                * inputs[spikes]\n            )\n            yield spikes", contracts=["homogeneous_poisson_exp_interval_online[steps<=3]"], name="online refractory encoder: resampled interval without the refractory offset"),
+    dict(file=EN, func="homogeneous_poisson_exp_interval_online", old="                * inputs[spikes]\n                + refrac\n            )\n", new="                * inputs[spikes]\n            )\n", contracts=["homogeneous_poisson_exp_interval_online[steps<=3]"], name="online refractory encoder: resampled interval without the refractory offset"),
     dict(file="inferno/neural/encoders/poisson.py", func="HomogeneousPoissonEncoder.forward", old="                refrac=self.refrac,\n                compensate=self.compensated,\n                generator=self.generator,\n            )\n        else:", new="                refrac=None,\n                compensate=self.compensated,\n                generator=self.generator,\n            )\n        else:", contracts=["HomogeneousPoissonEncoder.forward"], name="online encoding ignores the configured refractory period"),
     dict(file="inferno/neural/encoders/mixins.py", func="RefractoryStepMixin.dt@setter", old="        if self.__derive_refrac:\n            self.__refrac_time = StepMixin.dt.fget(self)", new="        pass", contracts=["HomogeneousPoissonEncoder.forward"], name="derived refractory period goes stale when dt changes"),
     dict(file=EN, func="homogeneous_poisson_exp_interval", old="refrac = step_time if refrac is None else refrac", new="refrac = step_time if refrac is None else step_time", contracts=["homogeneous_poisson_exp_interval[intervals]"], name="D19 regression: refrac argument ignored"),
